@@ -165,6 +165,10 @@ def impl(case):
                         peer.send(http_response(599, "ScriptEnd"))
                         continue
                     h = script[k]
+                    if h.get("fault") == "503":
+                        # a status the policy retries (503 with Retry-After: 0), answered again by the next hop of the script
+                        peer.send(http_response(503, "X", [("Retry-After", "0")], b""))
+                        continue
                     if h.get("fault"):
                         peer.eof()          # the connection is dropped without an answer: a retryable fault, no redirect
                         continue
@@ -501,7 +505,12 @@ def cases(rng, tier):
     for kind in ("manager", "proxy", "pool"):
         for red in (False, True):
             for pol in (["none"], ["retry", {"total": 4, "redirect": 2}], ["retry", {"total": 4, "redirect": 1, "raise_on_redirect": False}], ["int", 3]):
-                for script in ([F, R(1), OK, OK], [F, R(1), R(2), R(3), OK, OK], [R(1), F, R(2), OK, OK]):
+                S503 = {"fault": "503", "status": 0, "to": None, "form": "abs"}
+                X = lambda i: {"status": 302, "to": ["http", "b.example", 8080, "/x%d" % i], "form": "abs"}
+                for script in ([F, R(1), OK, OK], [F, R(1), R(2), R(3), OK, OK], [R(1), F, R(2), OK, OK],
+                               [S503, R(1), OK, OK], [S503, X(1), OK, OK], [S503, R(1), R(2), R(3), OK, OK], [R(1), S503, X(2), OK, OK]):
+                    if kind == "pool" and any(h.get("to") and h["to"][1] != "a.example" for h in script):
+                        continue
                     out.append({"kind": kind, "redirect": red, "assert_same_host": kind == "pool", "start": ["http", "a.example", None, "/"], "method": "GET",
                                 "body": False, "headers": [["X-Keep", "1"]], "hkind": "dict", "kw": pol, "pool": ["none"], "script": [dict(h) for h in script]})
     return out
